@@ -475,6 +475,48 @@ def rule_trunc(ctx, F):
                "positions (inner truncate: %s, table mutation: %s)" % (m.group(1), bool(inner), bool(muts)))
 
 
+    # boundary of the retention predicate: a position equal to the new length lies
+    # at the truncation point and must be forgotten (kept iff pos < len)
+    ctx.floor(R + ".keep", 3)
+    scope = []
+    for p, b in F.bodies.items():
+        if re.match(r"<base::message_builder::\w+Compressor<Target> as octseq::Truncate>::truncate", p) \
+                or p.startswith("base::message_builder::Node::drop_above"):
+            scope.append(b)
+    for b in scope:
+        for bi in sorted(b.reachable_blocks()):
+            for st in b.blocks[bi]["s"]:
+                if st[0] != "=" or st[2][0] != "bin" or st[2][1] not in ("Lt", "Le", "Gt", "Ge"):
+                    continue
+                x, y = deep_strip(b.term_of_operand(st[2][2])), deep_strip(b.term_of_operand(st[2][3]))
+                px, py = _is_pos(x), _is_pos(y)
+                lx, ly = _is_len(x), _is_len(y)
+                if px and ly:
+                    rel = st[2][1]
+                elif py and lx:
+                    rel = {"Lt": "Gt", "Le": "Ge", "Gt": "Lt", "Ge": "Le"}[st[2][1]]
+                else:
+                    continue
+                ctx.ob(R + ".keep", b, "retention boundary", rel in ("Lt", "Ge"),
+                       "remembered position compared with the new length using %s(pos, len): a name written "
+                       "exactly at the truncation point would be kept and later referenced" % rel, b.where(bi))
+
+
+def _is_pos(t):
+    return any(s[0] == "field" and s[2] in ("value", "head", "entries") for s in walk(t))
+
+
+def _is_len(t):
+    while t[0] == "cast":
+        t = deep_strip(t[2])
+    if t[0] == "arg":
+        return True
+    if t[0] == "field" and t[1] == ("arg", 1) and isinstance(t[2], int):
+        return True  # closure capture
+    # a local copy `let len = len as u16`
+    return False
+
+
 # ---------------------------------------------------------------------------
 
 def rule_prefix(ctx, F):
